@@ -144,11 +144,12 @@ pub fn run(ctx: &Ctx) -> (Outcome, String, Option<bool>) {
         p.max_steps = 30;
         p.max_txs = 14;
     }
-    let out = super::hist::run_histories(ctx, "histories", p, ctx.scale(2000, 20000), C02::default);
-    let rule = "Generated histories as for C01, biased to batches with intra-batch spending, repeated inputs/transactions, missing, spent and destroyed coins, oversized values (~23% of transactions mutated). Oracle: RefSTF (BTreeMap model). (a) accepted => every condition the property makes necessary holds per RefSTF (batches whose outcome the properties leave open are excluded and counted); (b) accepted => the coin tree, decoded entry by entry through the cfg(melstf_verif) view, equals the model's coin map exactly (value, covenant hash, additional data, height, denomination rewrite, destroy filter, faucet markers); (c) rejected => all components of the state are unchanged, both in the object the call was made on and in the driver's copy. Evidence counts over-rejections (not violations). Non-trivial = accepted batch of >=2 transactions with an intra-batch dependency, or a batch rejected for a reason other than malformedness; distinct by (pre-state coin root, transaction hashes).".to_string();
+    let mut out = super::hist::run_histories(ctx, "histories", p, ctx.scale(2000, 20000), C02::default);
+    out.absorb(super::hist::run_sampled_heights(ctx, &profile(), ctx.scale(300, 3000), C02::default));
+    let rule = "Also: the first phase's kind of histories on mainnet/testnet (85%) started at a height sampled anywhere below 2 000 000 (TIP-906 barrier crossed honestly first). Generated histories as for C01, biased to batches with intra-batch spending, repeated inputs/transactions, missing, spent and destroyed coins, oversized values (~23% of transactions mutated). Oracle: RefSTF (BTreeMap model). (a) accepted => every condition the property makes necessary holds per RefSTF (batches whose outcome the properties leave open are excluded and counted); (b) accepted => the coin tree, decoded entry by entry through the cfg(melstf_verif) view, equals the model's coin map exactly (value, covenant hash, additional data, height, denomination rewrite, destroy filter, faucet markers); (c) rejected => all components of the state are unchanged, both in the object the call was made on and in the driver's copy. Evidence counts over-rejections (not violations). Non-trivial = accepted batch of >=2 transactions with an intra-batch dependency, or a batch rejected for a reason other than malformedness; distinct by (pre-state coin root, transaction hashes).".to_string();
     (out, rule, None)
 }
 
 pub fn replay(case: &serde_json::Value) -> Check {
-    super::hist::replay_history(case, &profile(), C02::default())
+    super::hist::replay_any(case, &profile(), &profile(), C02::default())
 }
